@@ -1,91 +1,64 @@
 package main
 
-// T1 facts about pkg/extension's brokers (Ibx/Gen/Broker.lean):
+// T1 facts about pkg/extension's brokers (Ibx/Gen/Broker.lean).  All of them are recognised from the STRUCTURE of
+// the code: exported names (Emit, AddListener, RemoveListener, NewHost, Events, AsyncEventBroker, EventBroker, the
+// sync package's Lock/Unlock/RLock/RUnlock/Signal/Broadcast/Wait), builtins, operators, literals, `go` statements
+// and the identity of variables (ast.Ident.Obj) — never the names of unexported methods, fields or locals, the
+// order of if-branches, or break-vs-return.
+//
 //   asyncEmit            how AsyncEventBroker.Emit hands an event to a listener:
-//                          "goroutinePerEvent"  Emit contains a `go` statement (go l(*event))
-//                          "perListenerQueue"   Emit has no `go`, calls no listener itself and only does
-//                                               <listener>.queue.push(func literal); push only appends under the queue
-//                                               mutex; the queue's run loop pops calls[0] and makes exactly one call per
-//                                               iteration; the only `go` statement of the file is `go q.run()` inside
-//                                               acquire, on the branch that creates the queue
-//                          "unknown"            anything else
-//   asyncCopiesEvent     Emit itself (not a queued closure) dereferences the event pointer (`*event`)
-//   hostSharesQueues     NewHost gives every AsyncEventBroker field of Events the same queue set
-//   syncEmitFirstResult  EventBroker.Emit is "for range listenerFuncs { if result := l(*event); result != nil { return result } }; return nil"
-//   registryRemoveFirstThenAppend   AddListener = lockedRemoveListener(name) then append; lockedRemoveListener breaks after one hit
+//     "goroutinePerEvent"  Emit (or something of the file it calls) contains a `go` statement
+//     "perListenerQueue"   all of:
+//        (E) Emit and the same-file functions it calls have, outside function literals, only lock calls and exactly
+//            one call P(func literal) of a same-file method P ("push");
+//        (P) push has no `go`/send, stores its parameter by `<recv>.F = append(<recv>.F, <param>)` and otherwise
+//            only calls Lock/Unlock/Signal/Broadcast;
+//        (R) the worker method W ("run") — the callee of the file's ONLY `go` statement — has no `go`, takes the head
+//            `c := <recv>.F[0]` of the same slice field F, drops it by `<recv>.F = <recv>.F[1:]`, and makes exactly
+//            one dynamic call outside function literals, namely c();
+//        (W) that `go <q>.W()` stands in the same block as, and after, the creation `<q> = &T{…}` / `<q> := &T{…}` of
+//            the queue it runs (T = receiver type of W; the file has no other composite literal of T), and the
+//            creation is reached only when the lookup `<q> := <map>[<key>]` came back nil (either inside
+//            `if q == nil {…}` or after `if q != nil { …; return }`).
+//     "unknown"            anything else
+//   asyncCopiesEvent     Emit itself (not a queued closure) dereferences its event-pointer parameter (`*event`)
+//   asyncBrokerFields    the fields of struct Events whose type is AsyncEventBroker[…]
+//   hostSharesQueues     NewHost assigns ONE variable to the queue-set field (the pointer-typed field of
+//                        AsyncEventBroker) of every one of them
+//   msghubOneListenerName  msghub registers with every one of them under ONE name (string literal, whatever it is)
+//   syncEmitFirstResult  EventBroker.Emit: one range loop over a receiver field; the loop calls the range value with
+//                        `*<param>`, returns that result iff it is != nil; the function ends with `return nil`
+//   registryRemoveFirstThenAppend   AddListener of both brokers calls, before any append to a receiver field, the
+//                        same-file method that RemoveListener also calls, passing its name parameter; that method
+//                        ranges over a receiver slice field, compares with `==` against its parameter, splices the hit
+//                        out with append(x[:i…], x[i+1:]...) and leaves the loop (break / return) right after
 
 import (
 	"go/ast"
+	"go/token"
+	"sort"
 	"strings"
 )
 
 func init() { extractors = append(extractors, extractBroker) }
 
-func countGo(n ast.Node) int {
-	k := 0
+func bkGoStmts(n ast.Node) []*ast.GoStmt {
+	var res []*ast.GoStmt
 	if n == nil || isNilNode(n) {
-		return 0
+		return res
 	}
 	ast.Inspect(n, func(x ast.Node) bool {
-		if _, ok := x.(*ast.GoStmt); ok {
-			k++
+		if g, ok := x.(*ast.GoStmt); ok {
+			res = append(res, g)
 		}
 		return true
 	})
-	return k
+	return res
 }
 
-func hasNode(n ast.Node, pred func(ast.Node) bool) bool {
-	found := false
-	if n == nil || isNilNode(n) {
-		return false
-	}
-	ast.Inspect(n, func(x ast.Node) bool {
-		if x != nil && pred(x) {
-			found = true
-		}
-		return !found
-	})
-	return found
-}
-
-// fnG: like fn, but also finds methods whose receiver is a generic type (`*T[E]`, `*T[E, R]`).
-func fnG(f *ast.File, recv, name string) *ast.FuncDecl {
-	if f == nil {
-		return nil
-	}
-	for _, d := range f.Decls {
-		fd, ok := d.(*ast.FuncDecl)
-		if !ok || fd.Name.Name != name || fd.Recv == nil || len(fd.Recv.List) != 1 {
-			continue
-		}
-		t := fd.Recv.List[0].Type
-		if s, ok := t.(*ast.StarExpr); ok {
-			t = s.X
-		}
-		switch x := t.(type) {
-		case *ast.IndexExpr:
-			t = x.X
-		case *ast.IndexListExpr:
-			t = x.X
-		}
-		if id, ok := t.(*ast.Ident); ok && id.Name == recv {
-			return fd
-		}
-	}
-	return nil
-}
-
-func brokerLeanBool(b bool) string {
-	if b {
-		return "true"
-	}
-	return "false"
-}
-
-// callsOutsideFuncLits: source text of every call expression in n that is not inside a function literal
-func callsOutsideFuncLits(n ast.Node) []string {
-	var res []string
+// bkCallsOutsideLits: the call expressions under n that are not inside a function literal.
+func bkCallsOutsideLits(n ast.Node) []*ast.CallExpr {
+	var res []*ast.CallExpr
 	if n == nil || isNilNode(n) {
 		return res
 	}
@@ -94,191 +67,725 @@ func callsOutsideFuncLits(n ast.Node) []string {
 			return false
 		}
 		if ce, ok := x.(*ast.CallExpr); ok {
-			res = append(res, src(ce.Fun))
+			res = append(res, ce)
 		}
 		return true
 	})
 	return res
 }
 
+// bkAnyMethod: the same-file method (of any receiver type) or function a call goes to.
+func bkAnyCallee(f *ast.File, ce *ast.CallExpr) *ast.FuncDecl {
+	if fd := axCallee(f, "", ce); fd != nil {
+		return fd
+	}
+	_, name, ok := axSel(ce.Fun)
+	if !ok || ast.IsExported(name) {
+		return nil
+	}
+	var hit *ast.FuncDecl
+	n := 0
+	for _, d := range f.Decls {
+		if fd, ok := d.(*ast.FuncDecl); ok && fd.Recv != nil && fd.Name.Name == name {
+			hit = fd
+			n++
+		}
+	}
+	if n == 1 {
+		return hit
+	}
+	return nil
+}
+
+var bkLockNames = map[string]bool{"Lock": true, "Unlock": true, "RLock": true, "RUnlock": true}
+var bkCondNames = map[string]bool{"Signal": true, "Broadcast": true}
+
+func bkIsSelCall(ce *ast.CallExpr, names map[string]bool) bool {
+	_, name, ok := axSel(ce.Fun)
+	return ok && names[name]
+}
+
+// bkAppendTo: s is `<recv>.F = append(<recv>.F, v)`; returns F and v.
+func bkAppendTo(s ast.Stmt, recv *ast.Object) (string, ast.Expr, bool) {
+	as, ok := s.(*ast.AssignStmt)
+	if !ok || as.Tok != token.ASSIGN || len(as.Lhs) != 1 || len(as.Rhs) != 1 {
+		return "", nil, false
+	}
+	lb, lf, ok := axSel(as.Lhs[0])
+	if !ok || !axIs(lb, recv) {
+		return "", nil, false
+	}
+	ce, ok := axBuiltin(axUnparen(as.Rhs[0]), "append")
+	if !ok || len(ce.Args) != 2 || ce.Ellipsis.IsValid() {
+		return "", nil, false
+	}
+	ab, af, ok := axSel(ce.Args[0])
+	if !ok || !axIs(ab, recv) || af != lf {
+		return "", nil, false
+	}
+	return lf, ce.Args[1], true
+}
+
+// bkPush: (P) of the header; returns the slice field F.
+func bkPush(push *ast.FuncDecl) (string, bool) {
+	if push == nil || push.Body == nil || len(bkGoStmts(push)) > 0 {
+		return "", false
+	}
+	recv, param := axRecvObj(push), axParamObj(push, 0)
+	if recv == nil || param == nil || axParamObj(push, 1) != nil {
+		return "", false
+	}
+	if axCount(push.Body, func(x ast.Node) bool { _, ok := x.(*ast.SendStmt); return ok }) > 0 {
+		return "", false
+	}
+	field, n := "", 0
+	ast.Inspect(push.Body, func(x ast.Node) bool {
+		if s, ok := x.(ast.Stmt); ok {
+			if f, v, ok := bkAppendTo(s, recv); ok && axIs(v, param) {
+				field = f
+				n++
+			}
+		}
+		return true
+	})
+	if n != 1 {
+		return "", false
+	}
+	for _, ce := range bkCallsOutsideLits(push.Body) {
+		if _, ok := axBuiltin(ce, "append"); ok {
+			continue
+		}
+		if bkIsSelCall(ce, bkLockNames) || bkIsSelCall(ce, bkCondNames) {
+			continue
+		}
+		return "", false
+	}
+	return field, true
+}
+
+// bkRun: (R) of the header for the slice field F.
+func bkRun(run *ast.FuncDecl, field string) bool {
+	if run == nil || run.Body == nil || len(bkGoStmts(run)) > 0 {
+		return false
+	}
+	recv := axRecvObj(run)
+	if recv == nil {
+		return false
+	}
+	isField := func(e ast.Expr) bool {
+		b, f, ok := axSel(e)
+		return ok && f == field && axIs(b, recv)
+	}
+	// c := <recv>.F[0]
+	var head *ast.Object
+	heads := 0
+	// <recv>.F = <recv>.F[1:]
+	drops := 0
+	// any other assignment to <recv>.F (e.g. F = F[:0], F = nil) changes what is dropped
+	otherWrites := 0
+	ast.Inspect(run.Body, func(x ast.Node) bool {
+		as, ok := x.(*ast.AssignStmt)
+		if !ok {
+			return true
+		}
+		for i, l := range as.Lhs {
+			if len(as.Rhs) != len(as.Lhs) {
+				if isField(l) {
+					otherWrites++
+				}
+				continue
+			}
+			r := axUnparen(as.Rhs[i])
+			if ix, ok := r.(*ast.IndexExpr); ok && isField(ix.X) {
+				if v := axIntValue(ix.Index); v != nil && *v == 0 && as.Tok == token.DEFINE {
+					if id, ok := l.(*ast.Ident); ok && id.Obj != nil {
+						head = id.Obj
+						heads++
+					}
+				}
+			}
+			if isField(l) {
+				se, ok := r.(*ast.SliceExpr)
+				low := (*int)(nil)
+				if ok && se.Low != nil {
+					low = axIntValue(se.Low)
+				}
+				if ok && isField(se.X) && low != nil && *low == 1 && se.High == nil && se.Max == nil {
+					drops++
+				} else {
+					otherWrites++
+				}
+			}
+		}
+		return true
+	})
+	if heads != 1 || drops != 1 || otherWrites != 0 {
+		return false
+	}
+	// exactly one dynamic call (callee = a local variable) outside function literals: the head
+	dyn, headCalls := 0, 0
+	for _, ce := range bkCallsOutsideLits(run.Body) {
+		if id, ok := axUnparen(ce.Fun).(*ast.Ident); ok && id.Obj != nil && id.Obj.Kind == ast.Var {
+			dyn++
+			if id.Obj == head && len(ce.Args) == 0 {
+				headCalls++
+			}
+		}
+	}
+	if dyn != 1 || headCalls != 1 {
+		return false
+	}
+	// … and it is not inside a loop nested in the outer `for` (one call per pop)
+	ok := true
+	ast.Inspect(run.Body, func(x ast.Node) bool {
+		if rs, isRange := x.(*ast.RangeStmt); isRange {
+			for _, ce := range bkCallsOutsideLits(rs.Body) {
+				if axIs(ce.Fun, head) {
+					ok = false
+				}
+			}
+		}
+		return true
+	})
+	return ok
+}
+
+// bkBlocks: every statement list under n (blocks, case / comm clauses).
+func bkBlocks(n ast.Node, visit func(l []ast.Stmt, path []ast.Node)) {
+	var path []ast.Node
+	ast.Inspect(n, func(x ast.Node) bool {
+		if x == nil {
+			path = path[:len(path)-1]
+			return true
+		}
+		path = append(path, x)
+		switch b := x.(type) {
+		case *ast.BlockStmt:
+			visit(b.List, path)
+		case *ast.CaseClause:
+			visit(b.Body, path)
+		case *ast.CommClause:
+			visit(b.Body, path)
+		}
+		return true
+	})
+}
+
+// bkFromMapLookup: o is defined by `o := <m>[<k>]` / `o, ok := <m>[<k>]`.
+func bkFromMapLookup(o *ast.Object) bool {
+	if o == nil {
+		return false
+	}
+	as, ok := o.Decl.(*ast.AssignStmt)
+	if !ok || as.Tok != token.DEFINE || len(as.Rhs) != 1 {
+		return false
+	}
+	_, ok = axUnparen(as.Rhs[0]).(*ast.IndexExpr)
+	return ok
+}
+
+// bkWorker: (W) of the header.  Returns the worker method.
+func bkWorker(f *ast.File) (*ast.FuncDecl, bool) {
+	gos := bkGoStmts(f)
+	if f == nil || len(gos) != 1 {
+		return nil, false
+	}
+	g := gos[0]
+	run := bkAnyCallee(f, g.Call)
+	qBase, _, isSel := axSel(g.Call.Fun)
+	if run == nil || run.Recv == nil || !isSel || len(g.Call.Args) != 0 {
+		return nil, false
+	}
+	q := axObj(qBase)
+	typ := axRecvType(run)
+	if q == nil || typ == "" {
+		return nil, false
+	}
+	isNewQueue := func(e ast.Expr) bool {
+		u, ok := axUnparen(e).(*ast.UnaryExpr)
+		if !ok || u.Op != token.AND {
+			return false
+		}
+		cl, ok := u.X.(*ast.CompositeLit)
+		return ok && axTypeBase(cl.Type) == typ
+	}
+	// the only composite literal of the queue type in the file
+	if axCount(f, func(x ast.Node) bool { cl, ok := x.(*ast.CompositeLit); return ok && cl.Type != nil && axTypeBase(cl.Type) == typ }) != 1 {
+		return nil, false
+	}
+	okW := false
+	bkBlocks(f, func(l []ast.Stmt, path []ast.Node) {
+		iGo, iNew := -1, -1
+		var newObj *ast.Object
+		for i, s := range l {
+			if s == ast.Stmt(g) {
+				iGo = i
+			}
+			if as, ok := s.(*ast.AssignStmt); ok && len(as.Lhs) == 1 && len(as.Rhs) == 1 && isNewQueue(as.Rhs[0]) {
+				iNew, newObj = i, axObj(as.Lhs[0])
+			}
+		}
+		if iGo < 0 || iNew < 0 || iNew > iGo || newObj != q {
+			return
+		}
+		// nothing between creation and `go` leaves the block
+		for _, s := range l[iNew:iGo] {
+			if axCount(s, func(x ast.Node) bool {
+				switch x.(type) {
+				case *ast.ReturnStmt, *ast.BranchStmt:
+					return true
+				}
+				return false
+			}) > 0 {
+				return
+			}
+		}
+		// guard shape 1: the block is the body of `if <q> == nil` with q looked up in a map
+		if len(path) >= 2 {
+			if is, ok := path[len(path)-2].(*ast.IfStmt); ok && is.Body == path[len(path)-1] {
+				if x, eq, ok := axNilTest(is.Cond); ok && eq && axIs(x, q) && bkFromMapLookup(q) {
+					okW = true
+					return
+				}
+			}
+		}
+		// guard shape 2: earlier in the block, `if [x := m[k];] x != nil { …; return }`
+		for _, s := range l[:iNew+1] {
+			is, ok := s.(*ast.IfStmt)
+			if !ok || is.Else != nil || !axTerminates(is.Body.List) {
+				continue
+			}
+			if x, eq, ok := axNilTest(is.Cond); ok && !eq && bkFromMapLookup(axObj(x)) {
+				okW = true
+				return
+			}
+		}
+	})
+	return run, okW
+}
+
+// bkEmitShape: (E) of the header; returns the push method.
+func bkEmitShape(f *ast.File, emit *ast.FuncDecl) (push *ast.FuncDecl, why string) {
+	scope := axReach(f, axRecvType(emit), emit)
+	nPush := 0
+	for _, fd := range scope {
+		for _, ce := range bkCallsOutsideLits(fd.Body) {
+			switch {
+			case bkIsSelCall(ce, bkLockNames):
+			case axCallee(f, axRecvType(emit), ce) != nil: // a helper that is part of the scope
+			case len(ce.Args) == 1 && func() bool { _, ok := ce.Args[0].(*ast.FuncLit); return ok }() && bkAnyCallee(f, ce) != nil:
+				push = bkAnyCallee(f, ce)
+				nPush++
+			default:
+				if _, ok := axBuiltin(ce, "len"); ok {
+					continue
+				}
+				return nil, "Emit calls " + src(ce.Fun) + " outside a queued function literal"
+			}
+		}
+	}
+	if nPush != 1 {
+		return nil, "Emit does not hand exactly one function literal to a same-file method"
+	}
+	return push, ""
+}
+
+func bkAsyncEmit(f *ast.File, emit *ast.FuncDecl) (string, string) {
+	if f == nil || emit == nil || emit.Body == nil {
+		return "unknown", "AsyncEventBroker.Emit not found"
+	}
+	for _, fd := range axReach(f, axRecvType(emit), emit) {
+		if len(bkGoStmts(fd)) > 0 {
+			return "goroutinePerEvent", "Emit contains a go statement"
+		}
+	}
+	push, why := bkEmitShape(f, emit)
+	if push == nil {
+		return "unknown", why
+	}
+	field, ok := bkPush(push)
+	if !ok {
+		return "unknown", "the method Emit hands its closure to does not just append it to a slice field"
+	}
+	run, ok := bkWorker(f)
+	if !ok {
+		return "unknown", "the file's go statement is not `one worker per newly created queue`"
+	}
+	if axRecvType(run) != axRecvType(push) {
+		return "unknown", "worker and push belong to different types"
+	}
+	if !bkRun(run, field) {
+		return "unknown", "the worker does not pop exactly the head of the queue and call it"
+	}
+	return "perListenerQueue", "Emit only pushes; one worker per queue pops the head and calls"
+}
+
+// bkSyncEmit: syncEmitFirstResult of the header.
+func bkSyncEmit(se *ast.FuncDecl) bool {
+	if se == nil || se.Body == nil || len(bkGoStmts(se)) > 0 {
+		return false
+	}
+	recv, param := axRecvObj(se), axParamObj(se, 0)
+	if recv == nil || param == nil {
+		return false
+	}
+	stmts := se.Body.List
+	if len(stmts) == 0 {
+		return false
+	}
+	// the function ends with `return nil`
+	last, ok := stmts[len(stmts)-1].(*ast.ReturnStmt)
+	if !ok || len(last.Results) != 1 || !axIsNil(last.Results[0]) {
+		return false
+	}
+	// exactly one loop, a top-level range over a receiver field
+	var loop *ast.RangeStmt
+	nLoops := axCount(se.Body, func(x ast.Node) bool {
+		switch x.(type) {
+		case *ast.RangeStmt, *ast.ForStmt:
+			return true
+		}
+		return false
+	})
+	for _, s := range stmts {
+		if rs, ok := s.(*ast.RangeStmt); ok {
+			loop = rs
+		}
+	}
+	if nLoops != 1 || loop == nil {
+		return false
+	}
+	if b, _, ok := axSel(loop.X); !ok || !axIs(b, recv) {
+		return false
+	}
+	lv := axObj(loop.Value)
+	if lv == nil {
+		return false
+	}
+	// the listener call l(*param); its result variable
+	var res *ast.Object
+	nCalls := 0
+	ast.Inspect(loop.Body, func(x ast.Node) bool {
+		as, ok := x.(*ast.AssignStmt)
+		if !ok || len(as.Lhs) != 1 || len(as.Rhs) != 1 {
+			return true
+		}
+		ce, ok := axUnparen(as.Rhs[0]).(*ast.CallExpr)
+		if !ok || !axIs(ce.Fun, lv) || len(ce.Args) != 1 {
+			return true
+		}
+		if st, ok := axUnparen(ce.Args[0]).(*ast.StarExpr); ok && axIs(st.X, param) {
+			res = axObj(as.Lhs[0])
+			nCalls++
+		}
+		return true
+	})
+	totalCalls := 0
+	for _, ce := range bkCallsOutsideLits(loop.Body) {
+		if axIs(ce.Fun, lv) {
+			totalCalls++
+		}
+	}
+	if nCalls != 1 || totalCalls != 1 || res == nil {
+		return false
+	}
+	// returns: the only ones besides the final one are `return res`, reached iff res != nil
+	okRet, nRet := true, 0
+	bkBlocks(loop.Body, func(l []ast.Stmt, path []ast.Node) {
+		for i, s := range l {
+			rs, ok := s.(*ast.ReturnStmt)
+			if !ok {
+				continue
+			}
+			nRet++
+			if len(rs.Results) != 1 || !axIs(rs.Results[0], res) {
+				okRet = false
+				continue
+			}
+			guarded := false
+			// shape 1: inside `if res != nil { return res }`
+			if len(path) >= 2 {
+				if is, ok := path[len(path)-2].(*ast.IfStmt); ok && is.Body == path[len(path)-1] {
+					if x, eq, ok := axNilTest(is.Cond); ok && !eq && axIs(x, res) {
+						guarded = true
+					}
+				}
+			}
+			// shape 2: preceded by `if res == nil { continue }`
+			for _, p := range l[:i] {
+				if is, ok := p.(*ast.IfStmt); ok && is.Else == nil && len(is.Body.List) == 1 {
+					if br, ok := is.Body.List[0].(*ast.BranchStmt); ok && br.Tok == token.CONTINUE && br.Label == nil {
+						if x, eq, ok := axNilTest(is.Cond); ok && eq && axIs(x, res) {
+							guarded = true
+						}
+					}
+				}
+			}
+			if !guarded {
+				okRet = false
+			}
+		}
+	})
+	if !okRet || nRet != 1 {
+		return false
+	}
+	// no break that would skip the remaining listeners without a result
+	if axCount(loop.Body, func(x ast.Node) bool { b, ok := x.(*ast.BranchStmt); return ok && b.Tok == token.BREAK }) > 0 {
+		return false
+	}
+	// no other return in the function
+	return axCount(se.Body, func(x ast.Node) bool { _, ok := x.(*ast.ReturnStmt); return ok }) == 2
+}
+
+// bkIsSplice: e is append(<x>[:i…], <x>[i+1:]...) with i bound to the object idx.
+func bkIsSplice(e ast.Expr, idx *ast.Object) bool {
+	ce, ok := axBuiltin(axUnparen(e), "append")
+	if !ok || len(ce.Args) != 2 || !ce.Ellipsis.IsValid() {
+		return false
+	}
+	a, ok1 := axUnparen(ce.Args[0]).(*ast.SliceExpr)
+	b, ok2 := axUnparen(ce.Args[1]).(*ast.SliceExpr)
+	if !ok1 || !ok2 || a.Low != nil || !axIs(a.High, idx) || b.High != nil {
+		return false
+	}
+	be, ok := axUnparen(b.Low).(*ast.BinaryExpr)
+	if !ok || be.Op != token.ADD || !axIs(be.X, idx) {
+		return false
+	}
+	one := axIntValue(be.Y)
+	return one != nil && *one == 1 && src(a.X) == src(b.X)
+}
+
+// bkRegistry: registryRemoveFirstThenAppend of the header for one broker type.
+func bkRegistry(f *ast.File, typ string) bool {
+	ms := axMethods(f, typ)
+	add, remL := ms["AddListener"], ms["RemoveListener"]
+	if add == nil || remL == nil || add.Body == nil || remL.Body == nil {
+		return false
+	}
+	name := axParamObj(add, 0)
+	if name == nil {
+		return false
+	}
+	// the same-file method AddListener calls with its name parameter, that RemoveListener calls too
+	var rem *ast.FuncDecl
+	var remCall *ast.CallExpr
+	for _, ce := range bkCallsOutsideLits(add.Body) {
+		if len(ce.Args) == 1 && axIs(ce.Args[0], name) {
+			if fd := axCallee(f, typ, ce); fd != nil && fd.Recv != nil {
+				if rem != nil {
+					return false
+				}
+				rem, remCall = fd, ce
+			}
+		}
+	}
+	if rem == nil || rem.Body == nil {
+		return false
+	}
+	calledByRemove := false
+	for _, ce := range bkCallsOutsideLits(remL.Body) {
+		if axCallee(f, typ, ce) == rem && len(ce.Args) == 1 && axIs(ce.Args[0], axParamObj(remL, 0)) {
+			calledByRemove = true
+		}
+	}
+	if !calledByRemove {
+		return false
+	}
+	// every append of AddListener to a receiver field comes after the removal; there is at least one
+	recv := axRecvObj(add)
+	nApp := 0
+	okOrder := true
+	ast.Inspect(add.Body, func(x ast.Node) bool {
+		if s, ok := x.(ast.Stmt); ok {
+			if _, _, ok := bkAppendTo(s, recv); ok {
+				nApp++
+				if s.Pos() < remCall.End() {
+					okOrder = false
+				}
+			}
+		}
+		return true
+	})
+	if nApp == 0 || !okOrder {
+		return false
+	}
+	// the removal: one range loop over a receiver field, `==` against the parameter, splice, leave
+	rrecv, rname := axRecvObj(rem), axParamObj(rem, 0)
+	var loop *ast.RangeStmt
+	nLoops := 0
+	for _, s := range rem.Body.List {
+		if rs, ok := s.(*ast.RangeStmt); ok {
+			loop = rs
+			nLoops++
+		}
+	}
+	if rrecv == nil || rname == nil || nLoops != 1 {
+		return false
+	}
+	if b, _, ok := axSel(loop.X); !ok || !axIs(b, rrecv) {
+		return false
+	}
+	idx := axObj(loop.Key)
+	if idx == nil {
+		return false
+	}
+	compares := axCount(loop.Body, func(x ast.Node) bool {
+		be, ok := x.(*ast.BinaryExpr)
+		return ok && (be.Op == token.EQL || be.Op == token.NEQ) && (axIs(be.X, rname) || axIs(be.Y, rname))
+	})
+	if compares != 1 {
+		return false
+	}
+	// in the block that holds the splice, a later statement of the same block is break / return
+	leaves := false
+	nSplice := 0
+	bkBlocks(loop.Body, func(l []ast.Stmt, _ []ast.Node) {
+		for i, s := range l {
+			as, ok := s.(*ast.AssignStmt)
+			if !ok || len(as.Rhs) != 1 || !bkIsSplice(as.Rhs[0], idx) {
+				continue
+			}
+			nSplice++
+			for _, t := range l[i+1:] {
+				switch v := t.(type) {
+				case *ast.ReturnStmt:
+					leaves = true
+				case *ast.BranchStmt:
+					if v.Tok == token.BREAK && v.Label == nil {
+						leaves = true
+					}
+				}
+			}
+		}
+	})
+	return nSplice >= 1 && leaves
+}
+
 func extractBroker() {
 	g := gen("Broker")
 	af := parse("pkg/extension/async_broker.go")
-	emit := fnG(af, "AsyncEventBroker", "Emit")
-	push := fn(af, "asyncQueue", "push")
-	run := fn(af, "asyncQueue", "run")
-	acquire := fn(af, "asyncQueues", "acquire")
+	emit := axMethods(af, "AsyncEventBroker")["Emit"]
 
-	variant := "unknown"
-	why := "shape not recognised"
-	switch {
-	case emit == nil:
-		why = "AsyncEventBroker.Emit not found"
-	case countGo(emit) > 0:
-		variant, why = "goroutinePerEvent", "Emit contains a go statement"
-	default:
-		// Emit: outside function literals only RLock/RUnlock/push calls
-		okCalls := true
-		nPush := 0
-		for _, c := range callsOutsideFuncLits(emit.Body) {
-			switch {
-			case c == "eb.RLock" || c == "eb.RUnlock":
-			case strings.HasSuffix(c, ".queue.push"):
-				nPush++
-			default:
-				okCalls = false
-				why = "Emit calls " + c
-			}
-		}
-		pushArgLit := hasNode(emit.Body, func(x ast.Node) bool {
-			ce, ok := x.(*ast.CallExpr)
-			if !ok || !strings.HasSuffix(src(ce.Fun), ".queue.push") || len(ce.Args) != 1 {
-				return false
-			}
-			_, lit := ce.Args[0].(*ast.FuncLit)
-			return lit
-		})
-		// push: no go, no channel send, appends to q.calls
-		pushOK := push != nil && countGo(push) == 0 &&
-			!hasNode(push, func(x ast.Node) bool { _, ok := x.(*ast.SendStmt); return ok }) &&
-			strings.Contains(src(push.Body), "q.calls = append(q.calls, call)")
-		for _, c := range callsOutsideFuncLits(push) {
-			switch c {
-			case "q.mu.Lock", "q.mu.Unlock", "append", "q.ready.Signal", "q.ready.Broadcast":
-			default:
-				pushOK = false
-			}
-		}
-		// run: pops the head, exactly one `call()` and no go statement
-		runOK := false
-		if run != nil && countGo(run) == 0 {
-			n := 0
-			for _, c := range callsOutsideFuncLits(run) {
-				if c == "call" {
-					n++
-				}
-			}
-			body := src(run.Body)
-			runOK = n == 1 && strings.Contains(body, "call := q.calls[0]") && strings.Contains(body, "q.calls = q.calls[1:]")
-		}
-		// the only goroutine of the file: `go q.run()` in acquire, under `if q == nil`
-		workerOK := false
-		if af != nil && countGo(af) == 1 && acquire != nil && countGo(acquire) == 1 {
-			workerOK = hasNode(acquire, func(x ast.Node) bool {
-				is, ok := x.(*ast.IfStmt)
-				return ok && src(is.Cond) == "q == nil" && hasNode(is.Body, func(y ast.Node) bool {
-					gs, ok := y.(*ast.GoStmt)
-					return ok && src(gs.Call) == "q.run()"
-				})
-			})
-		}
-		if okCalls && nPush == 1 && pushArgLit && pushOK && runOK && workerOK {
-			variant, why = "perListenerQueue", "Emit only pushes; one worker per queue pops the head and calls"
-		} else if okCalls {
-			why = "queue shape not recognised"
-		}
-	}
+	variant, why := bkAsyncEmit(af, emit)
 	g.def("asyncEmit", "String", leanStr(variant), "how AsyncEventBroker.Emit hands an event to a listener ("+why+")")
 
 	// the dereference must be evaluated by Emit itself, not later inside a queued function literal
 	copies := false
-	if emit != nil {
+	if emit != nil && emit.Body != nil {
+		ev := axParamObj(emit, 0)
 		ast.Inspect(emit.Body, func(x ast.Node) bool {
 			if _, ok := x.(*ast.FuncLit); ok {
 				return false
 			}
-			if se, ok := x.(*ast.StarExpr); ok && src(se.X) == "event" {
+			if se, ok := x.(*ast.StarExpr); ok && axIs(se.X, ev) {
 				copies = true
 			}
 			return true
 		})
 	}
-	g.def("asyncCopiesEvent", "Bool", brokerLeanBool(copies), "Emit passes a copy (`*event`) to the listeners")
+	g.def("asyncCopiesEvent", "Bool", axLeanBool(copies), "Emit itself passes a copy (`*<event parameter>`) to the listeners")
 
-	// NewHost: every AsyncEventBroker field of Events gets the same `queues` value
+	// NewHost: every AsyncEventBroker field of Events gets the same queue-set value
 	hf := parse("pkg/extension/host.go")
-	var asyncFields []string
-	if hf != nil {
-		ast.Inspect(hf, func(x ast.Node) bool {
-			ts, ok := x.(*ast.TypeSpec)
-			if !ok || ts.Name.Name != "Events" {
-				return true
-			}
-			if st, ok := ts.Type.(*ast.StructType); ok {
-				for _, f := range st.Fields.List {
-					if strings.HasPrefix(src(f.Type), "AsyncEventBroker[") {
-						for _, n := range f.Names {
-							asyncFields = append(asyncFields, n.Name)
-						}
-					}
-				}
-			}
+	asyncFields := axFieldsWhere(axStruct(hf, "Events"), func(t ast.Expr) bool {
+		_, isPtr := t.(*ast.StarExpr)
+		return !isPtr && axTypeBase(t) == "AsyncEventBroker"
+	})
+	// the queue-set field: the pointer-typed field of struct AsyncEventBroker
+	qsFields := axFieldsWhere(axStruct(af, "AsyncEventBroker"), func(t ast.Expr) bool {
+		s, ok := t.(*ast.StarExpr)
+		if !ok {
 			return false
-		})
-	}
+		}
+		_, ok = s.X.(*ast.Ident)
+		return ok
+	})
 	nh := fn(hf, "", "NewHost")
-	assigned := map[string]string{}
-	if nh != nil {
+	assigned := map[string]*ast.Object{}
+	if nh != nil && len(qsFields) == 1 {
 		ast.Inspect(nh, func(x ast.Node) bool {
 			as, ok := x.(*ast.AssignStmt)
-			if ok && len(as.Lhs) == 1 && len(as.Rhs) == 1 {
-				l := src(as.Lhs[0])
-				if strings.HasPrefix(l, "h.Events.") && strings.HasSuffix(l, ".queues") {
-					assigned[strings.TrimSuffix(strings.TrimPrefix(l, "h.Events."), ".queues")] = src(as.Rhs[0])
+			if !ok || len(as.Lhs) != 1 || len(as.Rhs) != 1 {
+				return true
+			}
+			if b, f, ok := axSel(as.Lhs[0]); ok && f == qsFields[0] {
+				if _, broker, ok := axSel(b); ok {
+					if _, dup := assigned[broker]; dup {
+						assigned[broker] = nil // assigned twice: do not guess
+					} else {
+						assigned[broker] = axObj(as.Rhs[0])
+					}
 				}
 			}
 			return true
 		})
 	}
 	shares := len(asyncFields) > 0
-	first := ""
-	for _, f := range asyncFields {
-		v, ok := assigned[f]
-		if !ok || (first != "" && v != first) {
+	var first *ast.Object
+	for i, f := range asyncFields {
+		v := assigned[f]
+		if v == nil || (i > 0 && v != first) {
 			shares = false
 		}
 		first = v
 	}
 	g.def("asyncBrokerFields", "List String", strList(asyncFields), "the AsyncEventBroker fields of extension.Events")
-	g.def("hostSharesQueues", "Bool", brokerLeanBool(shares), "NewHost gives all of them one queue set (a listener name has ONE queue for stored and deleted)")
+	g.def("hostSharesQueues", "Bool", axLeanBool(shares), "NewHost assigns one and the same variable to the queue-set field of all of them (a listener name has ONE queue for stored and deleted)")
+
+	// msghub registers with each After-event broker; the queue is per listener NAME, so the ordering contract
+	// between `stored` and `deleted` reaches the hub only if it uses one name for both
+	mh := parse("pkg/msghub/hub.go")
+	var regs []string
+	regsOK := mh != nil
+	if mh != nil {
+		ast.Inspect(mh, func(x ast.Node) bool {
+			ce, ok := x.(*ast.CallExpr)
+			if !ok {
+				return true
+			}
+			b, name, ok := axSel(ce.Fun)
+			if !ok || name != "AddListener" {
+				return true
+			}
+			_, broker, ok := axSel(b)
+			if !ok {
+				return true
+			}
+			isAsync := false
+			for _, f := range asyncFields {
+				isAsync = isAsync || f == broker
+			}
+			if !isAsync {
+				return true
+			}
+			lit, isLit := ce.Args[0].(*ast.BasicLit)
+			if len(ce.Args) != 2 || !isLit || lit.Kind != token.STRING {
+				regsOK = false // a computed name: do not guess
+				return true
+			}
+			regs = append(regs, broker+"="+lit.Value)
+			return true
+		})
+	}
+	sort.Strings(regs)
+	sortedFields := append([]string{}, asyncFields...)
+	sort.Strings(sortedFields)
+	sameName := regsOK && len(regs) == len(sortedFields) && len(regs) > 0
+	for i, r := range regs {
+		if i >= len(sortedFields) || !strings.HasPrefix(r, sortedFields[i]+"=") ||
+			strings.TrimPrefix(r, sortedFields[i]+"=") != strings.TrimPrefix(regs[0], sortedFields[0]+"=") {
+			sameName = false
+		}
+	}
+	g.def("msghubOneListenerName", "Bool", axLeanBool(sameName),
+		"pkg/msghub/hub.go calls AddListener exactly once on every AsyncEventBroker field of Events, each time with the same string literal as name (whatever it is)")
 
 	// synchronous broker
 	bf := parse("pkg/extension/broker.go")
-	se := fnG(bf, "EventBroker", "Emit")
-	syncOK := false
-	if se != nil && countGo(se) == 0 {
-		stmts := se.Body.List
-		// eb.RLock(); defer eb.RUnlock(); for …; return nil
-		if len(stmts) == 4 {
-			rs, ok1 := stmts[2].(*ast.RangeStmt)
-			ret, ok2 := stmts[3].(*ast.ReturnStmt)
-			if ok1 && ok2 && src(rs.X) == "eb.listenerFuncs" && len(ret.Results) == 1 && src(ret.Results[0]) == "nil" && len(rs.Body.List) == 1 {
-				if is, ok := rs.Body.List[0].(*ast.IfStmt); ok && is.Init != nil && is.Else == nil &&
-					src(is.Init) == "result := "+src(rs.Value)+"(*event)" && src(is.Cond) == "result != nil" && len(is.Body.List) == 1 {
-					if r, ok := is.Body.List[0].(*ast.ReturnStmt); ok && len(r.Results) == 1 && src(r.Results[0]) == "result" {
-						syncOK = true
-					}
-				}
-			}
-		}
-	}
-	g.def("syncEmitFirstResult", "Bool", brokerLeanBool(syncOK), "EventBroker.Emit returns the first non-nil listener result, in slice order, else nil")
+	g.def("syncEmitFirstResult", "Bool", axLeanBool(bkSyncEmit(axMethods(bf, "EventBroker")["Emit"])),
+		"EventBroker.Emit returns the first non-nil listener result, in slice order, else nil")
 
-	regOK := func(f *ast.File, recv string) bool {
-		add := fnG(f, recv, "AddListener")
-		rem := fnG(f, recv, "lockedRemoveListener")
-		if add == nil || rem == nil {
-			return false
-		}
-		body := src(add.Body)
-		i := strings.Index(body, "eb.lockedRemoveListener(name)")
-		j := strings.LastIndex(body, "append(")
-		hasBreak := hasNode(rem, func(x ast.Node) bool {
-			b, ok := x.(*ast.BranchStmt)
-			return ok && b.Tok.String() == "break"
-		})
-		return i >= 0 && j > i && hasBreak && strings.Count(body, "append(") >= 1
-	}
-	g.def("registryRemoveFirstThenAppend", "Bool", brokerLeanBool(regOK(bf, "EventBroker") && regOK(af, "AsyncEventBroker")),
+	g.def("registryRemoveFirstThenAppend", "Bool", axLeanBool(bkRegistry(bf, "EventBroker") && bkRegistry(af, "AsyncEventBroker")),
 		"AddListener of both brokers removes the first same-named entry, then appends")
 }
